@@ -9,52 +9,52 @@ Context {D : Type}.
 Theorem C02_resolve_sound : forall (self ctx : tree D) ms tail c q ctx' toks', header_end tail ->
   resolve self ctx (hdr_toks ms ++ tail) = RFound c q ctx' toks' ->
   In (c, ctx') (desig self ctx ms) /\ q = is_query_tail tail /\ toks' = after_header tail.
-Proof. exact resolve_sound. Qed.
+Proof. apply resolve_sound. Qed.
 
 Theorem C02_resolve_undefined : forall (self ctx : tree D) ms tail, header_end tail -> desig self ctx ms = [] ->
   exists toks', resolve self ctx (hdr_toks ms ++ tail) = RFail UndefinedHeader toks'.
-Proof. exact resolve_undefined. Qed.
+Proof. apply resolve_undefined. Qed.
 
 Theorem C02_exec_undefined_invokes_nothing : forall (self ctx : tree D) s e toks', resolve self ctx (x_toks s) = RFail e toks' ->
   exec self ctx s = XErr (std_error e) (with_toks s toks') /\ x_trace (with_toks s toks') = x_trace s.
-Proof. exact exec_undefined_invokes_nothing. Qed.
+Proof. apply exec_undefined_invokes_nothing. Qed.
 
 Theorem C02_resolve_complete : forall (self ctx : tree D) ms tail c ctx', wf_tree self -> header_end tail ->
   In (c, ctx') (desig self ctx ms) ->
   resolve self ctx (hdr_toks ms ++ tail) = RFound c (is_query_tail tail) ctx' (after_header tail).
-Proof. exact resolve_complete. Qed.
+Proof. apply resolve_complete. Qed.
 
 Theorem C02_designation_unique : forall (self ctx : tree D) ms x y, wf_tree self ->
   In x (desig self ctx ms) -> In y (desig self ctx ms) -> x = y.
-Proof. exact designation_unique. Qed.
+Proof. apply designation_unique. Qed.
 
 Theorem C02_default_branch_omitted : forall name dflt sub (ch ctx : tree D) ms x, In ch sub -> is_default ch = true -> is_branch ch = true ->
   In x (desig ch ctx ms) -> In x (desig (Branch name dflt sub) ctx ms).
-Proof. exact default_branch_omitted. Qed.
+Proof. apply default_branch_omitted. Qed.
 
 Theorem C02_default_leaf_omitted : forall name dflt sub n c (ctx : tree D), In (Leaf n true c) sub ->
   In (c, ctx) (desig (Branch name dflt sub) ctx []).
-Proof. exact default_leaf_omitted. Qed.
+Proof. apply default_leaf_omitted. Qed.
 
 Theorem C02_node_spelled_out : forall name dflt sub (ch ctx : tree D) m ms x, In ch sub -> mnemonic_match (node_name ch) m = true ->
   In x (desig ch (Branch name dflt sub) ms) -> In x (desig (Branch name dflt sub) ctx (m :: ms)).
-Proof. exact node_spelled_out. Qed.
+Proof. apply node_spelled_out. Qed.
 
 Theorem C02_unit_absolute : forall (root leaf : tree D) s rest, x_toks s = IOk THeaderMnemonicSeparator :: rest ->
   unit_body root leaf s = UExec (exec root root (with_toks s rest)).
-Proof. exact unit_absolute. Qed.
+Proof. apply unit_absolute. Qed.
 
 Theorem C02_unit_common_keeps_context : forall (root leaf : tree D) s m rest leaf' s', x_toks s = IOk (TMnemonic m) :: rest ->
   starts_with_star m = true -> exec root root s = XOk leaf' s' -> unit_body root leaf s = UExec (XOk leaf s').
-Proof. exact unit_common_keeps_context. Qed.
+Proof. apply unit_common_keeps_context. Qed.
 
 Theorem C02_unit_relative : forall (root leaf : tree D) s m rest, x_toks s = IOk (TMnemonic m) :: rest ->
   starts_with_star m = false -> unit_body root leaf s = UExec (exec leaf leaf s).
-Proof. exact unit_relative. Qed.
+Proof. apply unit_relative. Qed.
 
 Theorem C02_message_starts_at_root : forall (root : tree D) toks d f,
   run_tokens root toks d f = unit_loop (S (length toks)) root root (mkX toks d f []).
-Proof. exact message_starts_at_root. Qed.
+Proof. apply message_starts_at_root. Qed.
 
 End C02_statements.
 
